@@ -57,6 +57,16 @@ SPECS = {
         search=False,
         explanation="histories of loads (Exec and consult/1) and assertz calls on one interpreter, every fault kind swept over the positions of a text; error kind, output and the clause lists of all predicates after every operation compared with the model and with the property read as a specification",
     ),
+    "C16": dict(
+        level="proof", props_deps=["Proofs/Rel.v", "Proofs/Unify.v"], model_deps=["Model/RelCheck.v"],
+        trusted=COMMON_TRUSTED + ["hand-written Model/Rel.v: the relations themselves (enumerations proved exact) and answers = candidates unifiable with the arguments, by the unification model of C02; it is a specification-level model, not a mirror of builtin.go, tied by the correspondence run",
+                                  "UTF-8 decoding of atom text in the model (uchars); Coq string literals are byte strings"],
+        assumptions=["modes: those the implementation admits (ISO): arg/3 with N an integer, between/3 with integer bounds, length/2 with a partial list only when the length is given",
+                     "calls whose answers are cyclic terms (a variable shared between a list and the result) are dropped",
+                     "atoms with characters the reader rejects in quoted atoms (U+1F600) are not generated; a 4-byte letter (U+2000B) is used instead"],
+        search=False,
+        explanation="calls of the 17 built-ins in every admitted instantiation pattern; all answers collected as instances of the argument tuple and compared as a multiset modulo variable renaming with the relation's tuples that unify with the arguments",
+    ),
     "C12": dict(
         level="proof", props_deps=["Proofs/Solutions.v"], model_deps=["Model/SolutionsCheck.v"],
         trusted=COMMON_TRUSTED + ["hand-written handshake model Model/Solutions.v under run-to-block semantics; Go channels, scheduler and memory model are not modelled"],
